@@ -18,7 +18,6 @@ mod cli_common;
 use cli_common::*;
 
 const CLASS_F11: &str = "context-separator-terminator-under-crlf-or-null-data";
-const CLASS_STATS: &str = "stats-trailer-separated-like-a-block-multithreaded";
 
 /// Cuts the `--stats` trailer (a blank line, then 8 counter lines) off the end of `out`.
 fn split_stats(out: &[u8]) -> Option<(Vec<u8>, Vec<u8>)> {
@@ -560,7 +559,7 @@ fn run_tree(case: &str, ctx: &mut Ctx, drv: &mut Driver, rep: &mut Report) {
             }
         }
         // C (multi-threaded path): the model rebuilds the -jN output from its blocks in the observed lock order
-        // (with --stats the trailer is one more buffer handed to bufwtr.print: Model.BufWriter.outParStats)
+        // (with --stats the trailer follows straight on stdout: Model.BufWriter.outParStats, theorem C08_stats)
         let (mn, fulln) = match &trailern {
             Some(t) => {
                 let mut full = outn.stdout.clone();
@@ -601,16 +600,9 @@ fn run_tree(case: &str, ctx: &mut Ctx, drv: &mut Driver, rep: &mut Report) {
         let want1: Option<Vec<u8>> = sep_bytes.as_ref().map(|s| { let mut v = s.clone(); v.extend(unhex(term).unwrap_or_default()); v });
         let wantn: Option<Vec<u8>> = sep_bytes.as_ref().map(|s| { let mut v = s.clone(); v.push(b'\n'); v });
         if !pn.stray.is_empty() || !p1.stray.is_empty() {
-            // class: the --stats trailer is handed to the buffer writer like a file's block. Mechanism test: --stats is on,
-            // a file separator is configured, something was printed, the only stray line of the -jN output is exactly that
-            // separator, directly in front of the trailer, and the -j1 output has none.
-            let mechanism = stats && trailern.is_some() && wantn.is_some() && !pn.blocks.is_empty()
-                && p1.stray.is_empty() && pn.stray.len() == 1 && Some(&pn.stray[0]) == wantn.as_ref()
-                && outn.stdout.ends_with(&pn.stray[0]);
-            let class = if mechanism { rep.branch(&format!("class:{}:attributed", CLASS_STATS)); CLASS_STATS }
-                else { if stats { rep.branch(&format!("class:{}:mechanism-absent", CLASS_STATS)); } "" };
+            // (also: a separator between the last block and the --stats trailer — fixed by 78b4250, its revert is a mutant)
             problems.push((format!("separator lines outside the gaps between blocks: -j{} {:?}, -j1 {:?}", n,
-                pn.stray.iter().map(|s| show(s)).collect::<Vec<_>>(), p1.stray.iter().map(|s| show(s)).collect::<Vec<_>>()), class));
+                pn.stray.iter().map(|s| show(s)).collect::<Vec<_>>(), p1.stray.iter().map(|s| show(s)).collect::<Vec<_>>()), ""));
         }
         if mode == "json" {
             rep.branch("stats:json-summary-compared");
